@@ -38,6 +38,7 @@ def _(self, decoder: Obj("Decoder")) -> Val:
     raises(NotImplementedError)
     assigns(decoder)
     ensures(decoder.number_of_bits <= old(decoder.number_of_bits))
+    ensures(decoder.value == old(decoder.value))
 
 
 @contract("MembersType.decode_additions", props=["C07", "C05", "C16", "C08"], for_class="any")
@@ -103,3 +104,30 @@ def _(self, data: Str, encoder: Obj("Encoder")):
                            encoder.number_of_bits == old(encoder.number_of_bits) + (1 if self.has_extension_marker else 0)
                            and encoder.value == old(encoder.value) * (2 if self.has_extension_marker else 1))])
     loop(0, invariant=[encoder.number_of_bits <= 3100 + _i0 * self.bits_per_character or True])
+
+
+fields("Choice", additions_index_to_member=Opt(Map('int', Obj("Type"))), root_index_to_member=Map('int', Obj("Type")),
+       root_name_to_index=Map('str', Nat), additions_name_to_index=Opt(Map('str', Nat)),
+       number_of_indefinite_bits=Opt(Nat), root_number_of_bits=Nat, maximum=Int)
+formatting("Choice.format_names", "Choice.format_root_indexes")
+
+
+@contract("Choice.decode_additions", props=["C07", "C05", "C16", "C08"])
+def _(self, decoder: Obj("Decoder")) -> Tup(Opt(Str), Opt(Val)):
+    # X.691 23.8 (aligned): index, octet alignment, length determinant L, exactly L octets -- whether or not this
+    # version knows the alternative; an unknown alternative is reported as (None, None) (C07)
+    requires(self.additions_index_to_member is not None)
+    opaque("ld_size", "ld_val", "ld_bad", "nsn_size", "nsn_val")
+    forget("bits_val", "is_bitstr")
+    raises(DecodeError)
+    raises(UnicodeDecodeError)
+    raises(ValueError)
+    raises(IndexError)
+    raises(NotImplementedError)
+    assigns(decoder)
+    ensures(decoder.number_of_bits == choice_addition_end(decoder.value, decoder.total_number_of_bits,
+                                                          old(decoder.number_of_bits)))
+    ensures(implies(nsn_val(decoder.value, decoder.total_number_of_bits - old(decoder.number_of_bits))
+                    not in self.additions_index_to_member, result[0] is None and result[1] is None))
+    ensures(implies(nsn_val(decoder.value, decoder.total_number_of_bits - old(decoder.number_of_bits))
+                    in self.additions_index_to_member, result[0] is not None))
